@@ -388,6 +388,7 @@ func c02Tune(g *gen) {
 
 func init() {
 	runners["C02"] = func(c *ctx) {
+		c.stateProj = "sp_balances" // the part of the state this property's theorems speak about
 		u := newUniverse()
 		proj := tkProj(false, true)
 		c.rep.Rule = "(1) amount sweep on clones of fresh 2-shard worlds: caller's prior holding in {absent, 1, 1000, 2^64+5, 90-byte value} (fungible token and SFT nonce 1) x amount in {0, 1, bal-1, bal, bal+1, 2^64-1, 2^64, 100-byte, 101-byte} x {ESDTLocalMint, ESDTLocalBurn, ESDTBurn, ESDTNFTCreate, ESDTNFTAddQuantity, ESDTNFTBurn, ESDTTransfer, ESDTNFTTransfer, MultiESDTNFTTransfer (fungible / SFT / repeated token; same and cross shard), UpdateAttributes, AddURI, SaveKeyValue, SetUserName}; per prior holding: ESDTWipe (frozen / not frozen / SFT key), Freeze, UnFreeze, Pause, UnPause, SetRole, UnSetRole, CreateRoleTransfer, ChangeOwnerAddress, ClaimDeveloperRewards; F8 world (system-account address holds a token, then ESDTPause / ESDTUnPause on that shard and on the other shard); F4c world (creator holds 7 units of the fungible token TOK-a1b2c3 followed by byte 0x0a, plain and frozen, counter of TOK-a1b2c3 at 9, then ESDTNFTCreate); F4b world (AddQuantity / NFTBurn / AddURI / UpdateAttributes through the aliased key, the honest identifier, the repaired F4a shape). " +
